@@ -60,13 +60,35 @@ def _classes():
                         except Exception:
                             pass
 
+    def reassign(*objs):
+        """a hook that MUTATES, benignly: re-assign to every node involved the children it already has (an
+        accepted assignment whose net effect is nil), from inside the hook of the running assignment"""
+        for o in objs:
+            for x in (o if isinstance(o, (list, tuple)) else [o]):
+                if isinstance(x, BinaryNode):
+                    try:
+                        x.children = list(x.children)
+                    except Exception:
+                        pass
+
     class Faults:
         queue = []      # one entry per setter call: None | "pre" | "post"
         pending = False
+        reentrant = False   # case option: hooks also perform the benign re-assignment above
+        depth = 0
 
         @classmethod
         def pre(cls, *involved):
+            if cls.depth:           # a setter call made by a hook: no fault logic, no recursion
+                return
             touch(*involved)
+            if cls.reentrant:
+                cls.depth += 1
+                try:
+                    reassign(*involved)
+                finally:
+                    cls.depth -= 1
+                touch(*involved)
             cur = cls.queue.pop(0) if cls.queue else None
             cls.pending = cur == "post"
             if cur == "pre":
@@ -74,7 +96,16 @@ def _classes():
 
         @classmethod
         def post(cls, *involved):
+            if cls.depth:
+                return
             touch(*involved)
+            if cls.reentrant:
+                cls.depth += 1
+                try:
+                    reassign(*involved)
+                finally:
+                    cls.depth -= 1
+                touch(*involved)
             if cls.pending:
                 cls.pending = False
                 raise HookFault("post")
@@ -102,10 +133,23 @@ class Junk:
 
 # non-node arguments: ["Junk"] / ["Junk", "obj"] = a truthy object; the others are FALSY values that are
 # neither None nor a node.  The model treats every kind alike (AJunk: TypeError with the checks on).
-JUNK_KINDS = {"obj": Junk, "0": lambda: 0, "str": lambda: "", "False": lambda: False, "0.0": lambda: 0.0,
+def _mk_node():
+    from bigtree.node.node import Node
+    return Node("x")
+
+
+def _mk_base():
+    from bigtree.node.basenode import BaseNode
+    return BaseNode()
+
+
+JUNK_KINDS = {"obj": Junk, "1": lambda: 1, "True": lambda: True, "strx": lambda: "x",
+              "node": _mk_node, "base": _mk_base,        # bigtree nodes that are no BinaryNode
+              "0": lambda: 0, "str": lambda: "", "False": lambda: False, "0.0": lambda: 0.0,
               "tuple": lambda: (), "list": lambda: [], "dict": lambda: {}}
+TRUTHY_JUNK = ["obj", "1", "True", "strx", "node", "base"]
 FALSY_JUNK = ["0", "str", "False", "0.0", "tuple", "list", "dict"]
-HASHABLE_JUNK = ["obj", "0", "str", "False", "0.0", "tuple"]
+HASHABLE_JUNK = TRUTHY_JUNK + ["0", "str", "False", "0.0", "tuple"]
 
 
 def _arg(nodes, a):
@@ -118,15 +162,41 @@ def _arg(nodes, a):
 
 def _junk(rng, hashable=False, truthy=False):
     if truthy:
-        return ["Junk", "obj"]
-    pool = HASHABLE_JUNK if hashable else ["obj"] + FALSY_JUNK
-    # half of the junk is falsy
-    return ["Junk", "obj"] if rng.random() < 0.4 else ["Junk", rng.choice([k for k in pool if k != "obj"])]
+        return ["Junk", rng.choice(TRUTHY_JUNK)]
+    pool = HASHABLE_JUNK if hashable else TRUTHY_JUNK + FALSY_JUNK
+    # about half of the junk is falsy
+    if rng.random() < 0.45:
+        return ["Junk", rng.choice(TRUTHY_JUNK)]
+    return ["Junk", rng.choice([k for k in pool if k not in TRUTHY_JUNK])]
+
+
+class _CallerList:
+    """The caller's own list object: ONE list per history, re-used for every list-typed argument
+    (children setter, constructor `children=`, extend) and overwritten in place right after the call.
+    An implementation that keeps the caller's list as its slot list, or reads it lazily, shows up in the
+    next observation; an implementation that writes to the caller's list is reported through `mutated`."""
+    lst = []
+    given = None
+    mutated = False
+
+    @classmethod
+    def load(cls, items):
+        cls.lst[:] = items
+        cls.given = list(items)
+        return cls.lst
+
+    @classmethod
+    def release(cls):
+        if cls.given is not None:
+            if len(cls.lst) != len(cls.given) or any(a is not b for a, b in zip(cls.lst, cls.given)):
+                cls.mutated = True
+            cls.given = None
+            cls.lst[:] = [Junk(), Junk(), Junk()]
 
 
 def _container(kind, items):
     if kind == "list":
-        return list(items)
+        return _CallerList.load(items)
     if kind == "tuple":
         return tuple(items)
     if kind == "set":
@@ -191,72 +261,160 @@ def apply_op(cl, nodes, op):
     elif k == "Sort":
         keys = op[2]
         pos = {id(n): i for i, n in enumerate(nodes)}
-        nodes[op[1]].sort(key=lambda nd: keys[pos[id(nd)]] if pos[id(nd)] < len(keys) else 0, reverse=op[3])
+        key = lambda nd: keys[pos[id(nd)]] if pos[id(nd)] < len(keys) else 0   # noqa: E731
+        if op[3]:
+            nodes[op[1]].sort(key=key, reverse=True)
+        else:
+            nodes[op[1]].sort(key=key)          # `reverse` omitted: the default
     elif k == "Extend":
         F.queue = [_fq(f) for f in op[3]]
-        nodes[op[1]].extend([nodes[c] for c in op[2]])
+        nodes[op[1]].extend(_CallerList.load([nodes[c] for c in op[2]]))
     elif k == "New":
         FBin = cl["FBin"]
         obj = FBin.__new__(FBin)          # FBin(...) = __new__ + __init__; keep the object even if __init__ raises
         left, right, par = _arg(nodes, op[1]), _arg(nodes, op[2]), _arg(nodes, op[3])
-        ch = [_arg(nodes, a) for a in op[4]] if op[4] else None
+        ch = _CallerList.load([_arg(nodes, a) for a in op[4]]) if op[4] else None
         nodes.append(obj)
         F.queue = [_fq(op[5]), _fq(op[6])]
-        obj.__init__(len(nodes) - 1, left=left, right=right, parent=par, children=ch)
+        i = len(nodes) - 1
+        obj.__init__(i, left=left, right=right, parent=par, children=ch, tag=7 * i + 1)
     else:
         raise ValueError(k)
+
+
+ARG_MUTATED = 15     # outcome code: the call wrote to the caller's own list
 
 
 def _run_ops(cl, nodes, ops, trace):
     for op in ops:
         code = 0
+        _CallerList.mutated = False
         try:
             apply_op(cl, nodes, op)
         except HookFault:
             code = 12
         except Exception as e:
             code = exn_code(e)
+        _CallerList.release()
+        if _CallerList.mutated:
+            # make it visible at the only granularity the check compares (accepted / rejected): flip it
+            code = ARG_MUTATED if code == 0 else 0
         cl["Faults"].queue = []
         cl["Faults"].pending = False
+        cl["Faults"].depth = 0
         if trace is not None:
             trace.append([_links(nodes), code])
 
 
-def run_history(case):
+def run_history(case, battery_wanted=False):
     """Runs in whatever interpreter imports this module (the harness worker: checks on; the
     harness.noassert child: checks off)."""
     cl = _classes()
     cl["Faults"].queue = []
     cl["Faults"].pending = False
+    cl["Faults"].depth = 0
+    cl["Faults"].reentrant = bool(case.get("reentrant"))
+    _CallerList.lst = []
+    _CallerList.given = None
 
     def fresh():
-        nodes = [cl["FBin"](i) for i in range(case["n"])]
+        # int names (BinaryNode(1): name "1", val 1) and one extra attribute per node
+        nodes = [cl["FBin"](i, tag=7 * i + 1) for i in range(case["n"])]
         _run_ops(cl, nodes, case["prefix"], None)
         return nodes
 
     pre = _links(fresh())
     branches = []
+    battery = []
     for ops in case["branches"]:
         nodes = fresh()
         tr = []
         _run_ops(cl, nodes, ops, tr)
         branches.append(tr)
-    return {"pre": pre, "branches": branches}
+        if battery_wanted:
+            battery.append(_battery(nodes))
+    cl["Faults"].reentrant = False
+    return {"pre": pre, "branches": branches, "battery": battery}
+
+
+def _battery(nodes):
+    """results of library functions on every binary tree of the final state (C20: must not depend on the
+    assertion switch); every call individually guarded, an exception is recorded by its class"""
+    import contextlib
+    import io
+    import json
+    from bigtree.tree import export, helper
+    from bigtree.utils import iterators
+    idx = {id(n): i for i, n in enumerate(nodes)}
+
+    def ids(it):
+        return [None if x is None else idx.get(id(x), FOREIGN) for x in it]
+
+    def shape(root):
+        return [[x.name, x.val, None if x.left is None else x.left.name, None if x.right is None else x.right.name,
+                 getattr(x, "tag", None)] for x in iterators.preorder_iter(root)]
+
+    def printed(root):
+        buf = io.StringIO()
+        with contextlib.redirect_stdout(buf):
+            export.print_tree(root, all_attrs=True)
+        return buf.getvalue()
+
+    out = []
+
+    def run(item, key, f):
+        try:
+            item[key] = f()
+        except Exception as e:
+            item[key] = "ERR:" + type(e).__name__
+
+    per_node = {}
+    for i, n in enumerate(nodes):
+        run(per_node, str(i), lambda n=n: [n.name, n.val, getattr(n, "tag", None), n.is_leaf, n.is_root, n.depth,
+                                              n.path_name, ids(n.siblings), ids(n.ancestors)])
+    out.append(per_node)
+    for n in nodes:
+        if n.parent is not None:
+            continue
+        item = {}
+        run(item, "inorder", lambda: ids(iterators.inorder_iter(n)))
+        run(item, "inorder2", lambda: ids(iterators.inorder_iter(n, max_depth=2)))
+        run(item, "pre", lambda: ids(iterators.preorder_iter(n)))
+        run(item, "post", lambda: ids(iterators.postorder_iter(n)))
+        run(item, "level", lambda: [ids(g) for g in iterators.levelordergroup_iter(n)])
+        run(item, "zigzag", lambda: ids(iterators.zigzag_iter(n)))
+        run(item, "desc", lambda: [ids(n.descendants), ids(n.leaves), n.max_depth, n.diameter])
+        run(item, "print", lambda: printed(n))
+        run(item, "dict", lambda: export.tree_to_dict(n, all_attrs=True))
+        run(item, "nested", lambda: export.tree_to_nested_dict(n, all_attrs=True))
+        run(item, "clone", lambda: shape(helper.clone_tree(n, type(n))))
+        run(item, "copy", lambda: shape(n.copy()))
+        run(item, "prune", lambda: shape(helper.prune_tree(n, max_depth=2)))
+        run(item, "subtree", lambda: shape(helper.get_subtree(n, max_depth=2)))
+        out.append(item)
+    return json.loads(json.dumps(out, default=str, sort_keys=True))
 
 
 def run_impl(prop, case):
     from bigtree.globals import ASSERTIONS
     if not ASSERTIONS:
         raise RuntimeError("the harness process must run with the assertion checks on")
-    on = run_history(case)
-    obs = {"pre": on["pre"], "pre_off": [], "on": on["branches"], "off": [[] for _ in on["branches"]]}
+    on = run_history(case, prop == "C20")
+    obs = {"pre": on["pre"], "pre_off": [], "on": on["branches"], "off": [[] for _ in on["branches"]],
+           "lib_equal": True, "battery_items": 0}
     if prop == "C20":
         from .. import noassert
         if noassert.call("harness.engines.binary", "__assertions__"):
             raise RuntimeError("the no-assertion child runs with the checks on")
-        off = noassert.call("harness.engines.binary", "run_history", case)
+        off = noassert.call("harness.engines.binary", "run_history", case, True)
         obs["pre_off"] = off["pre"]
         obs["off"] = off["branches"]
+        # the library results are compared only where the histories themselves were accepted with the checks on
+        ok = [all(code == 0 for _, code in tr) for tr in on["branches"]]
+        obs["lib_equal"] = all(a == b for a, b, k in zip(on["battery"], off["battery"], ok) if k)
+        obs["battery_items"] = sum(len(b) for b, k in zip(on["battery"], ok) if k)
+        if not obs["lib_equal"]:
+            obs["battery_diff"] = next([a, b] for a, b, k in zip(on["battery"], off["battery"], ok) if k and a != b)
     return obs
 
 
@@ -326,7 +484,7 @@ def emit(prop, case, obs):
         assert len(on) == len(ops)
         brs.append(f"BB {clist(_cop(o) for o in ops)} {_ctrace(on)} {_ctrace(off)}")
     parts = [cbool(case["assert"]), str(case["n"]), clist(_cop(o) for o in case["prefix"]),
-             _clinks(obs["pre"]), _clinks(obs["pre_off"]), clist(brs)]
+             _clinks(obs["pre"]), _clinks(obs["pre_off"]), clist(brs), cbool(obs.get("lib_equal", True))]
     return "BC " + " ".join(f"({p})" for p in parts)
 
 
@@ -580,6 +738,14 @@ def gen_case(rng, prop, fault_rate=0.1, invalid_rate=0.15, nmin=3, nmax=7, maxop
     guard = 0
     while len(ops) < nops and guard < 200:
         guard += 1
+        if ops and ops[-1][0] != "New" and rng.random() < 0.08:
+            # the same call once more on the same objects (repeatability; re-attachment to the same parent)
+            op = [list(x) if isinstance(x, list) else x for x in ops[-1]]
+            if only_valid and not sh.copy().apply(op):
+                continue
+            ops.append(op)
+            sh.apply(op)
+            continue
         kind = rng.choices(kinds, wts)[0]
         invalid = rng.random() < invalid_rate
         if kind == "SetParent":
@@ -704,7 +870,8 @@ def gen_case(rng, prop, fault_rate=0.1, invalid_rate=0.15, nmin=3, nmax=7, maxop
             continue
         ops.append(op)
         sh.apply(op)
-    return {"assert": True, "n": n, "prefix": [], "branches": [ops], "stratum": stratum}
+    return {"assert": True, "n": n, "prefix": [], "branches": [ops], "stratum": stratum,
+            "reentrant": rng.random() < 0.3}
 
 
 # -- small-scope enumeration ------------------------------------------------------------------
@@ -908,12 +1075,21 @@ def sample(prop, case, obs):
 
 
 def rule(prop):
-    return ("random operation histories (<= 14 ops, 3-7 initial BinaryNode objects plus up to 3 constructor calls) over a "
-            "BinaryNode subclass with fault-injecting hooks; strata: op mix (mixed/slots/parent/full/alloc) incl. None slots, tuples, "
-            "wrong lengths, non-nodes (a truthy object and the falsy values 0, '', False, 0.0, (), [], {}), loops, duplicates, full parents; every run: every state reachable on 2 and 3 nodes x every operation "
-            "(thorough: also 4 nodes); non-trivial = >=2 accepted ops and >=1 linked node (C02: >=1 accepted and >=1 rejected/failing op); "
-            "C20: no faults / no invalid ops, each case additionally run in a child interpreter with BIGTREE_CONF_ASSERTIONS=\"\"; "
-            "distinct by canonical JSON hash")
+    return ("random operation histories (<= 14 ops, 3-7 initial BinaryNode objects with int names and one extra attribute, plus up to 3 "
+            "constructor calls with left/right/parent/children combinations) over a BinaryNode subclass whose documented hooks read the "
+            ".children/.left/.right/.parent of every node involved, inject pre/post faults, and in 30% of the cases also re-assign "
+            "(benignly, re-entrantly) the children every involved node already has; entry points: parent setter, append, >>, <<, extend, "
+            "children setter (list/tuple/one-element set/non-sequence), left/right setters, children deleter, sort(key[, reverse]), "
+            "constructor; strata: op mix (mixed/slots/parent/full/alloc) incl. None slots, wrong lengths, non-nodes (truthy: object, 1, True, "
+            "'x', Node, BaseNode; falsy: 0, '', False, 0.0, (), [], {}), loops, duplicates, full parents, the same call repeated; every list "
+            "argument is ONE caller-owned list object per history, overwritten in place after each call (an implementation that keeps or "
+            "writes it is flagged); every run: every state reachable on 2 and 3 nodes x every operation (thorough: also 4 nodes); observed "
+            "after every step, for every node: parent, node.children, node.left, node.right (exception or a non-node value distinguishable), "
+            "accepted/rejected; non-trivial = >=2 accepted ops and >=1 linked node (C02: >=1 accepted and >=1 rejected/failing op); C20: no "
+            "faults / no invalid ops, each case additionally run in a child interpreter with BIGTREE_CONF_ASSERTIONS=\"\" and a battery of "
+            "library calls (in/pre/post/level/zigzag iterators, descendants, leaves, max_depth, diameter, print_tree, tree_to_dict, "
+            "tree_to_nested_dict, clone_tree, copy, prune_tree, get_subtree, name/val/attributes/is_leaf/depth/path_name/siblings) compared "
+            "across the two interpreters; distinct by canonical JSON hash")
 
 
 def explain(prop, case, obs, flags):
@@ -929,4 +1105,23 @@ def trusted_base(prop):
 
 
 def partial_clauses(prop):
-    return []
+    """deliberately accepted blind spots of this engine's correspondence (all theorems of the model are proved)"""
+    common = [
+        "binary: outcomes are compared as accepted/rejected only (the exception class is not part of the property)",
+        "binary: not exercised: hooks that change links with a net effect (only reading hooks and a net-nil re-assignment are used), "
+        "sort() without key (nodes are unordered: TypeError), extend() with a non-list iterable, append()/>> with a non-node, "
+        "2-element set arguments (hash order; the model declines: Unmodelled), private fields (_BinaryNode__children/__parent) are "
+        "read only through the public getters",
+        "binary: constructor: a FALSY non-node as left/right together with explicit children is not generated (the constructor's "
+        "mismatch test is truthiness-based; the model's non-node is truthy there)",
+        "binary: a write to the caller's list is reported by flipping the observed accept/reject bit (reported as a correspondence "
+        "failure, not as a false property predicate)",
+    ]
+    if prop == "C02":
+        return common + ["binary: extend and the constructor are sequences of setter calls; atomicity is checked and proved per setter "
+                         "call, their earlier accepted assignments stay (binary_atomic excludes BExtend/BNew)"]
+    if prop == "C20":
+        return common + ["binary: with the checks off only histories that are valid with the checks on are modelled (anything a guard "
+                         "would reject is Unmodelled and not generated); the prefix of an enumeration case is observed at its end only; "
+                         "the library battery is compared between the interpreters, not against a model"]
+    return common
